@@ -759,6 +759,9 @@ func (g *Gen) vFont() string {
 		s += g.sp()
 	}
 	s += g.fontSize()
+	if g.known && g.chance(1, 12) { // N17
+		return s + " " + g.pick("-foo bar", "-apple system, serif", "-x y z")
+	}
 	if g.chance(1, 2) {
 		s += g.pick("/", " / ", "/ ", " /") + g.pick(g.randCase("normal"), "1", "1.5", "1.50", "0", "120%", "20px", "0px", "2em", "400")
 	}
@@ -960,7 +963,45 @@ func (g *Gen) component() string {
 		}
 		return "/"
 	}
-	return g.pick("U+26", "u+0-7f", "a", "b")
+	return g.weirdToken()
+}
+
+// weirdToken: legal but unusual tokens (IE hacks, escapes, odd delimiters).
+func (g *Gen) weirdToken() string {
+	switch g.r.Intn(12) {
+	case 0:
+		return g.pick("U+26", "u+0-7f", "U+4??", "u+1F600")
+	case 1:
+		return g.pick("r\\65 d", "\\31 23", "a\\+b", "\\72 ed", "R\\45 D", "\\-x", "a\\ b", "\\0000e9")
+	case 2:
+		if g.known { // N18: units that are not made of letters only
+			return g.pick("1E1E1", "0\\9", "10px\\9", "0px\\9", "1e3px\\9", "1.50em\\9", "0.50e5e5", "1px2", "01x-y", "1.0a_b", "0a-b", "00.5p\\78")
+		}
+		return g.pick("red\\9", "\\9", "a\\0/")
+	case 3:
+		return g.pick("red\\9", "\\0/", "!ie", "\\9")
+	case 4:
+		return g.pick("#\\31 23", "#a\\62 c", "#-x", "#--", "#_")
+	case 5:
+		return g.pick("--x", "--", "-", "+", "-->", "<!--", "%", "&", "~", "|", "||", "^", "$", "*", "<", ">", "?", "@foo", "@")
+	case 6:
+		return g.pick("a ~= b", "a|=b", "x ^= y", "a$=b", "a *= b", "a=b", "a = b", "a:b", "a : b")
+	case 7:
+		return g.pick("1.", "1.a", ".a", "1..2", "1.5.5", "+-1", "-+1", "--1", "1-", "1+", "1 -1", "1 - 1", "1 +1", "1 + 1", "1-1", "1+1", "a -1", "a-1", "a - 1", "a+1", "a +1")
+	case 8:
+		if g.noExp {
+			return g.pick("1ex", "1em", "1x")
+		}
+		return g.pick("1e", "1e+", "1e-", "1ex", "1em", "1e1x", "0e0", "0e", "00e1", "1e0", "1.0e0", ".0e-0", "1e+0px")
+	case 9:
+		return g.pick("'a\\'b'", "\"a\\\"b\"", "'\\27'", "\"\\22\"", "'a\\\nb'", "\"\\\n\"", "\"\\\\\"")
+	case 10:
+		return g.pick("a!b", "a ! b", "!a", "a,,b", "a//b", "a / / b", ",a", "a/")
+	}
+	if g.known && g.chance(1, 3) { // N19: the sign is the only separator
+		return g.pick("calc(1px+2px)", "fn(1+2)", "translate(1px+2px)")
+	}
+	return g.pick("calc(1px +2px)", "calc(1px - -2px)", "calc(-1 * (2px + 3px))", "calc( (1px) )", "CALC(1PX + 2Px)", "calc(1e1px + 0px)", "calc(0px)", "calc(0 * 1px)", "calc(100%/3 - 2*1em - 2*1px)")
 }
 
 func (g *Gen) vUnknown() string {
